@@ -221,7 +221,7 @@ def _sanitize_sdmx_columns(
         if comp_name not in data:
             if not comp.nullable:
                 name = file_path.stem
-                raise InputValidationException("0-3-1-5", name=name, comp_name=comp_name)
+                raise InputValidationException(code="0-3-1-5", name=name, comp_name=comp_name)
             data[comp_name] = None
 
     return data
